@@ -14,7 +14,7 @@ def exc_site(e: BaseException) -> str:
     tb = traceback.extract_tb(e.__traceback__)
     site = '?'
     for fr in tb:
-        if fr.filename.startswith(REPO_SRC):
+        if fr.filename.startswith(REPO_SRC) or '/src/hpl/' in fr.filename:
             site = fr.name
     return site
 
@@ -111,7 +111,8 @@ def run_cases(ck, fams, worker, label='EQ', K=2, chunk=150):
         st['wall_s'] = round(time.time() - t0, 1)
         stats[fname] = st
         if specs:
-            ck.sample({'family': fname, 'tree': gen.render(specs[len(specs) // 2])})
+            mid = specs[len(specs) // 2]
+            ck.sample({'family': fname, 'tree': ('simplify of ' + gen.render(mid[1])) if mid[0] == 'simplified' else gen.render(mid)})
     ck.engine(label, families=stats, trees=total, array_slots_K=K)
     return total, len(nontrivial)
 
